@@ -1,0 +1,45 @@
+//! Verification hooks (feature `verif-hooks`, off by default): counters recording which
+//! size-gated code paths were entered, so an external harness can report in its evidence
+//! that e.g. the parallel insert path really ran. They observe; they change no behaviour.
+use std::sync::atomic::{AtomicU64, Ordering};
+
+macro_rules! sites {
+    ($($name:ident),* $(,)?) => {
+        #[allow(non_camel_case_types)]
+        #[derive(Clone, Copy, Debug)]
+        pub enum Site { $($name),* }
+        const NAMES: &[&str] = &[$(stringify!($name)),*];
+        static COUNTS: [AtomicU64; NAMES.len()] = [const { AtomicU64::new(0) }; NAMES.len()];
+    };
+}
+
+sites!(
+    serial_insert,
+    parallel_insert,
+    parallel_delete,
+    parallel_rehash,
+    table_rebuild_incremental,
+    table_rebuild_nonincremental,
+    table_rebuild_parallel,
+    container_rebuild_incremental,
+    container_rebuild_nonincremental,
+    container_rebuild_parallel,
+    merge_all_simple,
+    merge_all_strata,
+    index_merge_parallel,
+    plan_single_bag,
+    plan_decomposed,
+);
+
+pub fn hit(site: Site) {
+    COUNTS[site as usize].fetch_add(1, Ordering::Relaxed);
+}
+
+/// (site name, number of times entered) since process start
+pub fn snapshot() -> Vec<(&'static str, u64)> {
+    NAMES
+        .iter()
+        .zip(COUNTS.iter())
+        .map(|(n, c)| (*n, c.load(Ordering::Relaxed)))
+        .collect()
+}
